@@ -407,6 +407,21 @@ def stv_initials(name):
     return ''.join(part[0].lower() for part in re.split(r'\W', name) if part)
 
 
+def stv_sval(value):
+    """a header value with the classifications `_create_evaluator` applies to it (lexing is Python's)"""
+    digits, udigit, intv = None, False, None
+    if value.isdigit():
+        try:
+            digits = str(int(value))
+        except ValueError:
+            udigit = True
+    try:
+        intv = str(int(value))
+    except ValueError:
+        pass
+    return {'text': value, 'digits': digits, 'udigit': udigit, 'int': intv}
+
+
 def stv_hline(line):
     if '#' in line:
         line = line[:line.find('#')]
@@ -432,7 +447,7 @@ def stv_hline(line):
         if len(parts) == 2:
             return {'cand': [key == 'withdrawn', parts[0], parts[1]]}
         return 'candBad'
-    return {'other': [key, value]}
+    return {'other': [key, stv_sval(value)]}
 
 
 def stv_vline(line):
@@ -487,26 +502,6 @@ def stv_tokenise(text):
     if any(v == 'UNSUPPORTED' for v in votes):
         return None
     return hdr, votes
-
-
-def stv_system_ok(hdr):
-    """the system settings are a set `_create_system` accepts (the model does not cover that function)"""
-    seen = {}
-    for h in hdr:
-        if isinstance(h, dict) and 'other' in h:
-            k, v = h['other']
-            if k in seen:
-                return False
-            seen[k] = v
-    if set(seen) - {'title', 'method', 'quota', 'seats', 'random'}:
-        return False
-    if seen.get('method') != 'BC' or seen.get('quota') not in ('droop', 'hare'):
-        return False
-    if 'seats' in seen and not re.fullmatch(r'[0-9]+', seen['seats']):
-        return False
-    if 'random' in seen and not (seen['random'] == 'non' or re.fullmatch(r'[0-9]+', seen['random'])):
-        return False
-    return True
 
 
 def stv_weight_model(w):
